@@ -336,6 +336,9 @@ func replyOutcome(p *Prog, f *FuncInfo, n ast.Node, v *types.Var, field *types.V
 					if ok, _ := replyOutcome(p, lf, m, v, field, depth+1); ok {
 						return true
 					}
+					if isCancellationReturn(p, lf, m) {
+						return true
+					}
 					return isDoneComm(p, lf, m)
 				})
 				if len(bad) == 0 {
@@ -1036,7 +1039,41 @@ func ruleR5(c *Ctx) {
 		in := info(op.Func)
 		switch op.Kind {
 		case OpSend:
-			t := in.TypeOf(op.Node.(*ast.SendStmt).Value)
+			val := op.Node.(*ast.SendStmt).Value
+			t := in.TypeOf(val)
+			// a helper that posts its parameter (declared with the interface type): what is posted is what the
+			// callers pass; a value that is itself of the interface type came out of a mailbox and is re-queued
+			if isIMessage(t) {
+				resolved := false
+				if id, ok := unparen(val).(*ast.Ident); ok {
+					if pv, ok := objOf(in, id).(*types.Var); ok && isParam(op.Func.Root(), pv) && op.Func.Root().Obj != nil {
+						idx := -1
+						sig := op.Func.Root().Obj.Type().(*types.Signature)
+						for i := 0; i < sig.Params().Len(); i++ {
+							if sig.Params().At(i) == pv {
+								idx = i
+							}
+						}
+						if idx >= 0 {
+							for _, h := range p.Funcs {
+								hin := info(h)
+								inspectNoLit(h.Body, func(m ast.Node) bool {
+									if cl, ok := m.(*ast.CallExpr); ok && callee(hin, cl) == op.Func.Root().Obj && idx < len(cl.Args) {
+										resolved = true
+										if at := hin.TypeOf(cl.Args[idx]); !isIMessage(at) {
+											b.sent[typeString(at)] = op.Node
+										}
+									}
+									return true
+								})
+							}
+						}
+					}
+				}
+				if resolved {
+					continue
+				}
+			}
 			b.sent[typeString(t)] = op.Node
 		case OpRecv:
 			// find the type switch over the received value inside the clause
@@ -1340,97 +1377,227 @@ func ruleR3e(c *Ctx) {
 	}
 }
 
+// typeArm is one arm of a dispatch over the dynamic type of a value: a clause of a type switch, or one link of
+// `if t, ok := x.(A); ok { } else if t, ok := x.(B); ok { }`.
+type typeArm struct {
+	Types []types.Type
+	Node  ast.Node
+	Body  []ast.Stmt
+}
+
+func typeDispatches(p *Prog, f *FuncInfo, tagPred func(types.Type) bool) [][]typeArm {
+	in := info(f)
+	var out [][]typeArm
+	assertOf := func(ifs *ast.IfStmt) (types.Type, bool) {
+		as, ok := ifs.Init.(*ast.AssignStmt)
+		if !ok || len(as.Rhs) != 1 || len(as.Lhs) != 2 {
+			return nil, false
+		}
+		ta, ok := unparen(as.Rhs[0]).(*ast.TypeAssertExpr)
+		if !ok || ta.Type == nil || !tagPred(in.TypeOf(ta.X)) {
+			return nil, false
+		}
+		okId, ok := as.Lhs[1].(*ast.Ident)
+		cid, ok2 := unparen(ifs.Cond).(*ast.Ident)
+		if !ok || !ok2 || objOf(in, okId) != objOf(in, cid) {
+			return nil, false
+		}
+		return in.TypeOf(ta.Type), true
+	}
+	inspectNoLit(f.Body, func(m ast.Node) bool {
+		switch x := m.(type) {
+		case *ast.TypeSwitchStmt:
+			if !typeSwitchTagIs(in, x, tagPred) {
+				return true
+			}
+			var arms []typeArm
+			for _, s := range x.Body.List {
+				cc := s.(*ast.CaseClause)
+				a := typeArm{Node: cc, Body: cc.Body}
+				for _, e := range cc.List {
+					a.Types = append(a.Types, in.TypeOf(e))
+				}
+				arms = append(arms, a)
+			}
+			out = append(out, arms)
+		case *ast.IfStmt:
+			if _, ok := assertOf(x); !ok {
+				return true
+			}
+			if par, ok := p.Parent(x).(*ast.IfStmt); ok && par.Else == ast.Stmt(x) {
+				if _, ok := assertOf(par); ok {
+					return true
+				}
+			}
+			var arms []typeArm
+			for cur := x; cur != nil; {
+				if t, ok := assertOf(cur); ok {
+					arms = append(arms, typeArm{Types: []types.Type{t}, Node: cur.Body, Body: cur.Body.List})
+				}
+				next, _ := cur.Else.(*ast.IfStmt)
+				cur = next
+			}
+			out = append(out, arms)
+		}
+		return true
+	})
+	return out
+}
+
 func ruleR48(c *Ctx) {
 	p := c.P
 	n := 0
-	seen := map[*ast.TypeSwitchStmt]bool{}
-	for _, cl := range typeSwitches(p, isITrace) {
-		if seen[cl.Switch] {
+	for _, f := range p.Funcs {
+		if f.Body == nil || !isTargetPkg(p, f.Pkg.PkgPath) {
 			continue
 		}
-		seen[cl.Switch] = true
-		f := cl.Func
 		in := info(f)
-		// clauses of this switch: which receiver fields do they write, which bool locals do they set to true?
-		type ci struct {
-			clause *ast.CaseClause
-			writes map[*types.Var]bool
-			flags  map[types.Object]bool
-		}
-		var cis []ci
-		for _, s := range cl.Switch.Body.List {
-			cc := s.(*ast.CaseClause)
-			x := ci{cc, map[*types.Var]bool{}, map[types.Object]bool{}}
-			for _, st := range cc.Body {
-				inspectNoLit(st, func(m ast.Node) bool {
-					switch y := m.(type) {
-					case *ast.AssignStmt:
-						for i, l := range y.Lhs {
-							target := l
-							if ix, ok := unparen(l).(*ast.IndexExpr); ok {
-								target = ix.X
-							}
-							if fv := fieldOf(in, target); fv != nil {
-								x.writes[fv] = true
-							}
-							if id, ok := unparen(l).(*ast.Ident); ok && i < len(y.Rhs) {
-								if r, ok := unparen(y.Rhs[i]).(*ast.Ident); ok && r.Name == "true" {
-									if o := objOf(in, id); o != nil {
-										x.flags[o] = true
+		for _, arms := range typeDispatches(p, f, isITrace) {
+			// arms of this dispatch: which receiver fields do they write, which bool locals do they set to true?
+			type ci struct {
+				arm    typeArm
+				writes map[*types.Var]bool
+				flags  map[types.Object]bool
+			}
+			var cis []ci
+			for _, a := range arms {
+				x := ci{a, map[*types.Var]bool{}, map[types.Object]bool{}}
+				for _, st := range a.Body {
+					inspectNoLit(st, func(m ast.Node) bool {
+						switch y := m.(type) {
+						case *ast.AssignStmt:
+							for i, l := range y.Lhs {
+								target := l
+								if ix, ok := unparen(l).(*ast.IndexExpr); ok {
+									target = ix.X
+								}
+								if fv := fieldOf(in, target); fv != nil {
+									x.writes[fv] = true
+								}
+								if id, ok := unparen(l).(*ast.Ident); ok && i < len(y.Rhs) {
+									if r, ok := unparen(y.Rhs[i]).(*ast.Ident); ok && r.Name == "true" {
+										if o := objOf(in, id); o != nil {
+											x.flags[o] = true
+										}
 									}
 								}
 							}
-						}
-					case *ast.CallExpr:
-						if isBuiltin(in, y, "delete") && len(y.Args) > 0 {
-							if fv := fieldOf(in, y.Args[0]); fv != nil {
-								x.writes[fv] = true
+						case *ast.CallExpr:
+							if isBuiltin(in, y, "delete") && len(y.Args) > 0 {
+								if fv := fieldOf(in, y.Args[0]); fv != nil {
+									x.writes[fv] = true
+								}
 							}
 						}
-					}
-					return true
-				})
+						return true
+					})
+				}
+				cis = append(cis, x)
 			}
-			cis = append(cis, x)
-		}
-		// group by written field
-		byField := map[*types.Var][]ci{}
-		for _, x := range cis {
-			for fv := range x.writes {
-				byField[fv] = append(byField[fv], x)
-			}
-		}
-		for fv, group := range byField {
-			if len(group) < 2 {
-				continue
-			}
-			union := map[types.Object]bool{}
-			for _, x := range group {
-				for o := range x.flags {
-					union[o] = true
+			byField := map[*types.Var][]ci{}
+			for _, x := range cis {
+				for fv := range x.writes {
+					byField[fv] = append(byField[fv], x)
 				}
 			}
-			if len(union) == 0 {
-				continue
-			}
-			n++
-			for _, x := range group {
-				var missing []string
-				for o := range union {
-					if !x.flags[o] {
-						missing = append(missing, o.Name())
+			for fv, group := range byField {
+				if len(group) < 2 {
+					continue
+				}
+				union := map[types.Object]bool{}
+				for _, x := range group {
+					for o := range x.flags {
+						union[o] = true
 					}
 				}
-				sort.Strings(missing)
-				var ts []string
-				for _, e := range x.clause.List {
-					ts = append(ts, typeString(in.TypeOf(e)))
+				if len(union) == 0 {
+					continue
 				}
-				c.Check(len(missing) == 0, f, x.clause, "case "+strings.Join(ts, ",")+" changes "+fv.Name(), "case clauses of one trace handler that change the same tracked state ("+fv.Name()+") raise the same notification flags: a clause that changes the state without raising the flag its siblings raise leaves the consumer of that state unaware of the change", ifEmpty(strings.Join(missing, ","), "sets the same flags as its siblings")+ifNotEmpty(missing, " not set to true in this clause"))
+				n++
+				for _, x := range group {
+					var missing []string
+					for o := range union {
+						if !x.flags[o] {
+							missing = append(missing, o.Name())
+						}
+					}
+					sort.Strings(missing)
+					var ts []string
+					for _, t := range x.arm.Types {
+						ts = append(ts, typeString(t))
+					}
+					c.Check(len(missing) == 0, f, x.arm.Node, "case "+strings.Join(ts, ",")+" changes "+fv.Name(), "case clauses of one trace handler that change the same tracked state ("+fv.Name()+") raise the same notification flags: a clause that changes the state without raising the flag its siblings raise leaves the consumer of that state unaware of the change", ifEmpty(strings.Join(missing, ","), "sets the same flags as its siblings")+ifNotEmpty(missing, " not set to true in this clause"))
+				}
 			}
 		}
 	}
 	if n == 0 {
 		c.Missing("trace handler with sibling clauses", "no trace handler has two clauses changing the same state and raising a flag (the inclusive join's tracker is expected)")
 	}
+}
+
+// isCancellationReturn: n is a return that is taken only when a same-package helper reported false, and that helper
+// returns false only from a select clause that received from a done-source (the wait loop was extracted into a
+// function that tells its caller "cancelled").
+func isCancellationReturn(p *Prog, f *FuncInfo, n ast.Node) bool {
+	ret, ok := n.(*ast.ReturnStmt)
+	if !ok {
+		return false
+	}
+	in := info(f)
+	return enclosingIfWhere(p, ret, f.Body, func(cond ast.Expr, inThen bool) bool {
+		c := unparen(cond)
+		neg := false
+		if u, ok := c.(*ast.UnaryExpr); ok && u.Op == token.NOT {
+			neg, c = true, unparen(u.X)
+		}
+		if neg != inThen {
+			return false // the return must be on the "false" side
+		}
+		var call *ast.CallExpr
+		switch x := c.(type) {
+		case *ast.CallExpr:
+			call = x
+		case *ast.Ident:
+			if o := objOf(in, x); o != nil {
+				defs, _ := localDefs(in, f.Root().Body, o)
+				if len(defs) == 1 {
+					call, _ = unparen(defs[0]).(*ast.CallExpr)
+				}
+			}
+		}
+		if call == nil {
+			return false
+		}
+		cf := p.byObj[callee(in, call)]
+		if cf == nil || cf.Pkg != f.Pkg || cf.Body == nil {
+			return false
+		}
+		falses, okAll := 0, true
+		inspectNoLit(cf.Body, func(m ast.Node) bool {
+			r, ok := m.(*ast.ReturnStmt)
+			if !ok || len(r.Results) != 1 {
+				return true
+			}
+			id, ok := unparen(r.Results[0]).(*ast.Ident)
+			if !ok || id.Name != "false" {
+				if !ok || id.Name != "true" {
+					okAll = false // a computed result: undecided
+				}
+				return true
+			}
+			falses++
+			inDone := false
+			for cur := p.Parent(r); cur != nil && cur != ast.Node(cf.Body); cur = p.Parent(cur) {
+				if cc, ok := cur.(*ast.CommClause); ok && cc.Comm != nil && isDoneComm(p, cf, cc.Comm) {
+					inDone = true
+				}
+			}
+			if !inDone {
+				okAll = false
+			}
+			return true
+		})
+		return falses > 0 && okAll
+	}) != nil
 }
